@@ -624,3 +624,22 @@ impl EndpointConfig {
             .unwrap()
     }
 }
+
+/// Verification hooks: certificate generation as used by the endpoint.
+#[cfg(bmwill_anemo_verif)]
+pub mod verif {
+    use super::*;
+
+    /// The self-signed certificate and PKCS#8 key an endpoint with this private key and network
+    /// name presents.
+    pub fn generate_cert(
+        private_key: [u8; 32],
+        server_name: &str,
+    ) -> (CertificateDer<'static>, PrivateKeyDer<'static>) {
+        let keypair = ed25519::KeypairBytes {
+            secret_key: private_key,
+            public_key: None,
+        };
+        EndpointConfigBuilder::generate_cert(&keypair, server_name)
+    }
+}
